@@ -184,6 +184,33 @@ func handle(req J) J {
 		return opAlias(req)
 	case "decode":
 		return opDecode(req)
+	case "decodeNode":
+		y := []byte(str(req, "yaml"))
+		switch str(req, "kind") {
+		case "tag":
+			var t input.Tag
+			if err := yaml.Unmarshal(y, &t); err != nil {
+				return J{"err": err.Error()}
+			}
+			return J{"ok": J{"name": t.Name, "priority": t.Priority}}
+		case "call":
+			var c input.Call
+			if err := yaml.Unmarshal(y, &c); err != nil {
+				return J{"err": err.Error()}
+			}
+			args := make([]any, len(c.Args))
+			for i, a := range c.Args {
+				args[i] = valJSON(a)
+			}
+			return J{"ok": J{"method": c.Method, "args": args, "immutable": c.Immutable}}
+		case "scope":
+			var sc input.Scope
+			if err := yaml.Unmarshal(y, &sc); err != nil {
+				return J{"err": err.Error()}
+			}
+			return J{"ok": sc.String()}
+		}
+		return J{"err": "unknown kind"}
 	case "merge":
 		return opMerge(req)
 	case "compile":
